@@ -21,6 +21,7 @@
 static cif_tp *CIFS[NCIF];
 static cif_container_tp *CONT[NCONT];
 static cif_loop_tp *LOOPS[NLOOP];
+static int LOOP_PARENT[NLOOP];  /* container slot a loop handle was derived from (loop handles alias it) */
 static cif_packet_tp *PKT[NPKT];
 static cif_pktitr_tp *ITR[NITR];
 static cif_value_tp *VAL[NVAL];
@@ -345,8 +346,23 @@ static void reset_all(void) {
 #define GETSLOT(var, tokidx, pfx, max, arr, must) int var = slot(t->tok[tokidx], pfx, max); \
     if (var < 0 || ((must) && !arr[var])) { ob_printf(&OUT, "ERR slot %s", t->tok[tokidx]); return; }
 
-static void store_cont(int hi, cif_container_tp *h) { if (hi >= 0) { if (CONT[hi]) cif_container_free(CONT[hi]); CONT[hi] = h; } }
-static void store_loop(int li, cif_loop_tp *l) { if (li >= 0) { if (LOOPS[li]) cif_loop_free(LOOPS[li]); LOOPS[li] = l; } }
+/* loop handles keep a pointer to the container handle they were obtained through: release them before it goes away */
+static void drop_dependents(int hi) {
+    int i, j;
+    for (i = 0; i < NLOOP; i++) if (LOOPS[i] && LOOP_PARENT[i] == hi) {
+        for (j = 0; j < NITR; j++) if (ITR[j] && ITR[j]->loop == LOOPS[i]) { (void) cif_pktitr_abort(ITR[j]); ITR[j] = NULL; }
+        cif_loop_free(LOOPS[i]); LOOPS[i] = NULL;
+    }
+}
+static void store_cont(int hi, cif_container_tp *h) { if (hi >= 0) { if (CONT[hi]) { drop_dependents(hi); cif_container_free(CONT[hi]); } CONT[hi] = h; } }
+static void store_loop2(int li, cif_loop_tp *l, int parent) {
+    if (li >= 0) {
+        if (LOOPS[li]) { int j; for (j = 0; j < NITR; j++) if (ITR[j] && ITR[j]->loop == LOOPS[li]) { (void) cif_pktitr_abort(ITR[j]); ITR[j] = NULL; }
+            cif_loop_free(LOOPS[li]); }
+        LOOPS[li] = l; LOOP_PARENT[li] = parent;
+    }
+}
+#define store_loop(li, l) store_loop2(li, l, hi)
 
 static void exec_cmd(toks *t) {
     const char *c = t->tok[0];
@@ -383,8 +399,8 @@ static void exec_cmd(toks *t) {
         { UChar *code = NULL; int rc = cif_container_get_code(CONT[hi], &code); ob_printf(&OUT, "{\"rc\":%d,\"code\":", rc); ob_jstr(&OUT, code); ob_putc(&OUT, '}'); if (code) free(code); } return; }
     if (strcmp(c, "cont.isblock") == 0) { NEED(2); GETSLOT(hi, 1, 'H', NCONT, CONT, 1); put_rc(cif_container_assert_block(CONT[hi])); return; }
     if (strcmp(c, "cont.destroy") == 0) { NEED(2); GETSLOT(hi, 1, 'H', NCONT, CONT, 1);
-        { int rc = cif_container_destroy(CONT[hi]); if (rc == CIF_OK || rc == CIF_INVALID_HANDLE) CONT[hi] = NULL; /* the handle is released in both cases */ put_rc(rc); } return; }
-    if (strcmp(c, "cont.free") == 0) { NEED(2); GETSLOT(hi, 1, 'H', NCONT, CONT, 1); cif_container_free(CONT[hi]); CONT[hi] = NULL; put_rc(0); return; }
+        { int rc; drop_dependents(hi); rc = cif_container_destroy(CONT[hi]); if (rc == CIF_OK || rc == CIF_INVALID_HANDLE) CONT[hi] = NULL; /* the handle is released in both cases */ put_rc(rc); } return; }
+    if (strcmp(c, "cont.free") == 0) { NEED(2); GETSLOT(hi, 1, 'H', NCONT, CONT, 1); drop_dependents(hi); cif_container_free(CONT[hi]); CONT[hi] = NULL; put_rc(0); return; }
     if (strcmp(c, "cont.prune") == 0) { NEED(2); GETSLOT(hi, 1, 'H', NCONT, CONT, 1); put_rc(cif_container_prune(CONT[hi])); return; }
     if (strcmp(c, "cont.dump") == 0) { NEED(2); GETSLOT(hi, 1, 'H', NCONT, CONT, 1); dump_container(&OUT, CONT[hi]); return; }
     if (strcmp(c, "loop.create") == 0) { /* loop.create H cat n names... L|- ; n=-1 passes names=NULL */
